@@ -89,6 +89,17 @@ class CoefAffine(LSDE.SDEFunction):
         return self.A0 + self.A1 * x
 
 
+class CoefTime(LSDE.SDEFunction):
+    """a(t, x) = A0 + A2 * t (test coefficient exercising the time dependence: the Euler step over [t_i, t_{i+1}] evaluates it at t_i)"""
+
+    def __init__(self, A0, A2):
+        super().__init__(m=A0.shape[0], d=A0.shape[1])
+        self.A0, self.A2 = A0, A2
+
+    def __call__(self, t, x):
+        return self.A0 + self.A2 * t
+
+
 def make_model(ctx, m, d, coef):
     x0 = np.array([ctx.real(f"x0_{i}") for i in range(m)], dtype=object)
     if coef == "constant":
@@ -96,6 +107,10 @@ def make_model(ctx, m, d, coef):
         a = LSDE.Constant(m=m, d=d, constant=c)
     elif coef == "diag":
         a = LSDE.DiagX(dimension=m)
+    elif coef == "time":
+        A0 = np.array([[ctx.real(f"A0_{i}{j}") for j in range(d)] for i in range(m)], dtype=object)
+        A2 = np.array([[ctx.real(f"A2_{i}{j}") for j in range(d)] for i in range(m)], dtype=object)
+        a = CoefTime(A0, A2)
     else:
         A0 = np.array([[ctx.real(f"A0_{i}{j}") for j in range(d)] for i in range(m)], dtype=object)
         A1 = np.array([[ctx.real(f"A1_{i}{j}") for j in range(d)] for i in range(m)], dtype=object)
@@ -540,6 +555,8 @@ def harnesses(tier):
                 continue
             for n in ((1, 2) if q else (1, 2, 3)):
                 hs.append(Harness(f"single.{coef}.{m}x{d}.n{n}", h_single, {"m": m, "d": d, "n": n, "coef": coef}, max_paths=2000))
+    hs.append(Harness("single.time.1x1.n2", h_single, {"m": 1, "d": 1, "n": 2, "coef": "time"}, max_paths=2000))
+    hs.append(Harness("coupled.time.n2", h_coupled, {"m": 1, "n": 2, "coef": "time"}, max_paths=2000))
     hs.append(Harness("single.affine.2x1.n2", h_single, {"m": 2, "d": 1, "n": 2, "coef": "affine"}, max_paths=2000))
     for coef in ("constant", "affine", "diag"):
         for n in ((1, 2) if q else (1, 2, 3)):
